@@ -393,9 +393,14 @@ fn attempt(
             _ => Err(("Failed to construct a useful datetime".to_string(), count)),
         }
     } else {
-        let offset = parsed
-            .to_fixed_offset()
-            .unwrap_or_else(|_| FixedOffset::east_opt(0).unwrap());
+        let offset = match parsed.to_fixed_offset() {
+            Ok(offset) => offset,
+            // No offset given: UTC. An offset that is given but out of range is an error.
+            Err(e) if e.kind() == chrono::format::ParseErrorKind::NotEnough => {
+                FixedOffset::east_opt(0).unwrap()
+            }
+            Err(_) => return Err(("Timezone offset is out of range".to_string(), count)),
+        };
         match (time, date) {
             (Ok(time), Ok(date)) => offset
                 .from_local_datetime(&date.and_time(time))
